@@ -569,7 +569,15 @@ def own_rules(prog, tier, T):
     if r5b is not None:
         r5b.title = ('memo key (printed form in CTL notation) is injective: '
                      'two CTL trees never share a memo entry')
-    return T.results(r1, r2, r3, r5, r5b)
+    return T.results(r1, r2, r3, r5, r5b, T(_text_atoms, prog))
+
+
+def _text_atoms(prog, prop=PROP):
+    """formulas may be given as text: an atom written in the text must name
+    the label it names in the structure (identifier as it is, quoted name
+    without its quotes)"""
+    from . import c09, c10
+    return c10.rule_gr8(prog, c09.grammars(prog), prop)
 
 
 def run(prog, tier, seed):
